@@ -470,7 +470,7 @@ func main() {
 			{"mid-segment-placeholders", universe([]string{"a", ":p", "a.:p"}, 3, true), []int{1, 2, 3}, paths([]string{"/", "a", ".", "x", ":", "#"}, 7), true},
 			{"odd-bytes", small, []int{1, 2}, paths(oddAlpha, 6), true},
 			{"odd-placeholder-names", universe(oddNames, 3, true), []int{1, 2}, paths([]string{"/", "a", "q", ".", " ", "-", "="}, 6), true},
-			{"non-ascii-literals", universe(nonASCII, 3, true), []int{1, 2}, paths(nonASCIIPath, 6), true},
+			{"non-ascii-literals", universe(nonASCII, 3, true), []int{1, 2}, paths(nonASCIIPath, 5), true},
 		}
 	} else {
 		sweeps = []sweep{
